@@ -152,11 +152,11 @@ class Report:
             code = EXIT_OK
         if n_viol:
             code = EXIT_VIOLATION
-        print("%s tier=%s: %s; %d obligations (%d unsat, %d sat, %d unknown), %d paths, %d known finding(s), "
-              "%d violation(s), %.1fs" % (self.pid, self.tier,
-                                          {0: "HELD within bounds", 1: "VIOLATED", 3: "INCONCLUSIVE/HARNESS-ERROR"}[code],
-                                          st["obligations"], st["unsat"], st["sat"], st["unknown"], st["paths"],
-                                          n_known, n_viol, time.time() - self.t0))
+        print("%s tier=%s: %s; %d proof obligations (%d discharged/unsat, %d refuted/sat, %d unknown), %d witness queries, %d paths, "
+              "%d known finding(s), %d violation(s), %.1fs" % (self.pid, self.tier,
+                                                               {0: "HELD within bounds", 1: "VIOLATED", 3: "INCONCLUSIVE/HARNESS-ERROR"}[code],
+                                                               st["obligations"], st["unsat"], st["sat"], st["unknown"], st["witness_queries"],
+                                                               st["paths"], n_known, n_viol, time.time() - self.t0))
         return code
 
 
